@@ -556,7 +556,12 @@ impl Clone for %s {
         def rep2(m):
             self.rules.hit('R22')
             return 'crate::vshim::range_contains(&%s, &' % m.group(1)
-        return re.sub(r'\b([a-z_][a-z0-9_]*)\.contains\(\s*&', rep2, txt)
+        txt = re.sub(r'\b([a-z_][a-z0-9_]*)\.contains\(\s*&', rep2, txt)
+        # `IT.size_hint()` (a trait method every iterator overrides): shim assumed to respect the documented bounds
+        def rep3(m):
+            self.rules.hit('R22')
+            return 'crate::vshim::size_hint(&%s)' % m.group(1)
+        return re.sub(r'\b([a-z_][a-z0-9_]*)\.size_hint\(\)', rep3, txt)
 
     def r23_deref_patterns(self, txt):
         # R23: a reference pattern binding a Copy value in a match arm, `PATH(&NAME) => {` -> `PATH(NAME__verif_ref) => { let NAME = *NAME__verif_ref;`
